@@ -302,6 +302,7 @@ def run(ctx, rep):
     check_memo_keys(ctx, rep)
     check_flag_clears(ctx, rep)
     check_shared_flags(ctx, rep)
+    check_handed_out_buffers(ctx, rep)
     if check_flag_cleared_after_the_refresh(ctx, rep) < 15:
         rep.incomplete('C11.S', 'flags-cleared-last', '', 'fewer than 15 flag-guarded refresh blocks found')
     check_cache_values(ctx, rep)
@@ -358,6 +359,77 @@ def check_flag_clears(ctx, rep, rule='C11.F'):
                               f"{cname}.{fn.name} clears self.{flag} although every refresh in the guarded block ({[norm_text(a)[:40] for a in skipped]}) sits under a further "
                               f"condition: on the path that skips it the cache is declared fresh without having been recomputed")
     rep.analysed[f'flag_clear_sites[{rule}]'] = n
+    return n
+
+
+BUFFER_POSITIVE = """
+class G:
+    def precision_matrix(self):
+        q = self._q
+        if q is None or q.shape != self.shape:
+            q = torch.zeros(self.shape)
+            self._q = q
+        q[..., 0, 0] = self.precision.tensor
+        return q
+    def fresh(self):
+        q = torch.zeros(self.shape)
+        q[..., 0, 0] = self.precision.tensor
+        return q
+"""
+
+
+def handed_out_buffers(fn):
+    """(local, attributes, first in-place write) for a method that returns a tensor it also keeps on the object and writes into: the caller's copy of an earlier call is
+    overwritten by the next one"""
+    alias = {}
+    for st in ast.walk(fn):
+        if isinstance(st, ast.Assign) and len(st.targets) == 1:
+            t, v = st.targets[0], st.value
+            if isinstance(t, ast.Name) and self_attr(v):
+                alias.setdefault(t.id, set()).add(self_attr(v))
+            if self_attr(t) and isinstance(v, ast.Name):
+                alias.setdefault(v.id, set()).add(self_attr(t))
+            if self_attr(t) and isinstance(v, ast.IfExp):
+                for b in (v.body, v.orelse):
+                    if isinstance(b, ast.Name):
+                        alias.setdefault(b.id, set()).add(self_attr(t))
+    out = []
+    for name, attrs in alias.items():
+        written = [st for st in ast.walk(fn)
+                   if (isinstance(st, ast.Assign) and any(isinstance(t, ast.Subscript) and isinstance(t.value, ast.Name) and t.value.id == name for t in st.targets))
+                   or (isinstance(st, ast.AugAssign) and isinstance(st.target, ast.Subscript) and isinstance(st.target.value, ast.Name) and st.target.value.id == name)
+                   or (isinstance(st, ast.Expr) and isinstance(st.value, ast.Call) and isinstance(st.value.func, ast.Attribute) and st.value.func.attr.endswith('_')
+                       and not st.value.func.attr.startswith('_') and isinstance(st.value.func.value, ast.Name) and st.value.func.value.id == name)]
+        returned = [r for r in ast.walk(fn) if isinstance(r, ast.Return) and isinstance(r.value, ast.Name) and r.value.id == name]
+        if written and returned:
+            out.append((name, sorted(attrs), written[0]))
+    return out
+
+
+def check_handed_out_buffers(ctx, rep, rule='C11.M', only=None):
+    """A value that was handed out stays the value of the state it was computed for.  A method that returns a tensor it keeps on the object and refreshes IN PLACE at the next
+    call changes what the caller of the previous call still holds: P(s) becomes P(t), the precision matrix of the current state becomes that of the proposed one."""
+    t = ast.parse(BUFFER_POSITIVE)
+    got = [len(handed_out_buffers(f)) for f in t.body[0].body]
+    if got != [1, 0]:
+        raise AnalysisError(f"{rule} self-check: handed-out buffers of the embedded example classified as {got}")
+    n = 0
+    for mname, m in sorted(ctx.prog.modules.items()):
+        if not mname.startswith('torchtree') or '.cli' in mname:
+            continue
+        if only is not None and not only(m):
+            continue
+        for fn in ast.walk(m.tree):
+            if not isinstance(fn, ast.FunctionDef):
+                continue
+            n += 1
+            cl = getattr(fn, '_parent', None)
+            scope = f"{cl.name}.{fn.name}" if isinstance(cl, ast.ClassDef) else fn.name
+            for name, attrs, w in handed_out_buffers(fn):
+                rep.bad(rule, f"{mname.replace('torchtree.', '')}::{scope}::{name}::returned-values-are-not-overwritten-later", where(m, w), {'kept_as': attrs},
+                        f"{scope} returns `{name}`, which it also keeps as self.{attrs[0]} and writes in place (`{norm_text(w)[:50]}`): the tensor a caller received from an earlier "
+                        f"call is overwritten by the next one — it no longer describes the state it was computed for")
+    rep.ok(rule, 'handed-out-buffers::scanned', '', {'functions_scanned': n})
     return n
 
 
